@@ -5,6 +5,8 @@
 #include <signal.h>
 
 extern void debug_init(char *ident);
+extern void h_debug_quiet(void);
+extern void h_debug_level_raw(uint8_t l);
 extern void debug_set_level(uint8_t level);
 extern int debug_set_destination(char *dest, int log_type);
 
@@ -13,7 +15,8 @@ int main(int argc, char **argv) {
     char *toks[HMAXTOK];
     signal(SIGPIPE, SIG_IGN);
     debug_init("rspharness");
-    debug_set_level(0);
+    h_debug_quiet();
+    h_debug_level_raw(128);
     if (getenv("RSPH_LOG"))
         debug_set_destination(getenv("RSPH_LOG"), 0);
     while (fgets(line, sizeof(line), stdin)) {
